@@ -309,9 +309,16 @@ def hypothesis_shard(item: dict[str, Any]) -> Collector:
             case["nested"] = False
         if case["nested"] and draw(st.integers(0, 2)) == 0:  # the inner run ends very close to where it was started
             case["inner_shift"] = draw(st.sampled_from([1e-9, 3e-6, -2e-7, 1e-3]))
+        if method == "scripted" and case.get("ptypes") is None and not all(mask) and draw(st.integers(0, 3)) > 0:
+            # a scripted outer algorithm (it may come back to a point it asked for before) above a scripted inner run whose result
+            # depends on where it was started
+            case["nested"] = True
+            case["inner_shift"] = draw(st.sampled_from([1e-3, 0.02, 3e-6]))
         case["mask_kind"] = draw(st.sampled_from(["list", "int-array", "bool-array", "int-list", "tuple"]))
         case["script"] = [[draw(st.sampled_from(["f", "g"])), draw(st.integers(0, 2))] for _ in range(draw(st.integers(1, 8)))]
         case["script_points"] = [draw(st.sampled_from([-0.5, 0.0, 0.3, 0.8, 1.2])) for _ in range(3 * n)]
+        if case["method"] == "scripted" and case.get("nested"):
+            case["script"] = [["f", 0], ["f", 1], ["f", 0], ["g", 0], *case["script"]]  # (the algorithm comes back to its first point)
         return case
 
     def body(case: dict[str, Any]) -> None:
